@@ -4,6 +4,7 @@ package main
 
 import (
 	"fmt"
+	"os"
 	"go/constant"
 	"go/token"
 	"go/types"
@@ -561,6 +562,9 @@ func (fr *Frame) enterLoop(li *loopInfo, pre *State) *State {
 	defer func() { fr.midEval = false }()
 	li.pre = pre
 	name := fmt.Sprintf("L%d", li.ordinal)
+	if os.Getenv("GVC_DEBUG") != "" {
+		fmt.Fprintf(os.Stderr, "DEBUG %s loop %s header block %d (%s) reach=%s\n", fr.Fn.Name(), name, li.header.Index, li.header.Comment, truncate(pre.R.String(), 200))
+	}
 	var invs []Clause
 	if li.spec != nil {
 		invs = li.spec.Invariants
